@@ -77,6 +77,8 @@ type Network struct {
 	gap       int
 	Fired     map[string]int
 	keepOps   bool
+	// FirstFault is the event sequence number of the first disruptive fault.
+	FirstFault int64
 }
 
 // Of returns the network of simulation s.
@@ -121,9 +123,24 @@ func (nw *Network) Conns() []*Conn {
 }
 
 func (nw *Network) fire(kind string) {
+	seq := zzsim.Seq()
 	nw.mu.Lock()
 	nw.Fired[kind]++
+	switch kind {
+	case FReset, FClosePeer, FCloseLocal, FWriteErr, FCrash:
+		if nw.FirstFault == 0 {
+			nw.FirstFault = seq
+		}
+	}
 	nw.mu.Unlock()
+}
+
+// FirstFaultSeq returns the event sequence number of the first disruptive
+// fault (0: none fired).
+func (nw *Network) FirstFaultSeq() int64 {
+	nw.mu.Lock()
+	defer nw.mu.Unlock()
+	return nw.FirstFault
 }
 
 // nextOp numbers an I/O operation and returns the fault to inject there.
